@@ -88,6 +88,7 @@ func (p *Proc) Start(site string, main func() int) {
 		p.ExitAt = p.W.Now()
 		p.dead = true
 		p.W.mu.Unlock()
+		p.W.closeListenersOf(p)
 	})
 }
 
@@ -102,6 +103,7 @@ func (p *Proc) Kill() {
 	p.W.mu.Lock()
 	p.dead = true
 	p.W.mu.Unlock()
+	p.W.closeListenersOf(p)
 }
 
 // Stall keeps every task of the process off the CPU for d of simulated time.
